@@ -95,6 +95,22 @@ def index_guard(tu):
                 seen.add(q.id)
                 st.extend(s for _, s in q.succ)
             return seen
+        def releases_between(passing, h):
+            """a Py_DECREF-family call on some path from the guard's passing edge
+            to the use: releasing an object runs arbitrary code (finalizer,
+            weak-reference callback), which can shrink the bucket the guard
+            looked at"""
+            fwd = reach(passing, h)
+            for nd in live:
+                if nd.id not in fwd or nd is h or nd.e is None:
+                    continue
+                if h.id not in reach(nd, None) and nd is not h:
+                    continue
+                for c in nd.e.walk():
+                    if c.k == "CallExpr" and callee(c)[0] == "fn" and callee(c)[1] in (
+                            "Py_DECREF", "Py_XDECREF", "Py_CLEAR", "Py_DecRef"):
+                        return c
+            return None
         for site, bexp, iexp in sites:
             h = holder(site)
             if h is None:
@@ -103,6 +119,7 @@ def index_guard(tu):
             bt, it = path(bexp) or text(bexp), text(strip(iexp))
             ok = False
             lower = False
+            spoiled = None
             for g in live:
                 if g.kind != "branch" or g.e is None or g.id not in dom[h.id] or g is h:
                     continue
@@ -116,7 +133,12 @@ def index_guard(tu):
                         fail = "T" if e.v == ">=" else "F"
                         fs = [s for l, s in g.succ if l == fail]
                         if fs and h.id not in reach(fs[0], g):
-                            ok = True
+                            ps = [s for l, s in g.succ if l != fail]
+                            rel = releases_between(ps[0], h) if ps else None
+                            if rel is None:
+                                ok = True
+                            else:
+                                spoiled = rel
                     # lower bound: I >= 0 / I < 0
                     if ta == it and const_int(b) == 0 and e.v in (">=", "<"):
                         lower = True
@@ -125,8 +147,13 @@ def index_guard(tu):
                         fail = "T" if e.v == "<" else "F"
                         fs = [s for l, s in g.succ if l == fail]
                         if fs and h.id not in reach(fs[0], g):
-                            ok = True
+                            ps = [s for l, s in g.succ if l != fail]
+                            rel = releases_between(ps[0], h) if ps else None
                             lower = True
+                            if rel is None:
+                                ok = True
+                            else:
+                                spoiled = rel
             fld = [m.n for m in strip(iexp).walk() if m.k == "MemberExpr" and m.n in CURSOR_FIELDS]
             for v in clocals:
                 if any(d.k == "DeclRefExpr" and d.n == v for d in strip(iexp).walk()):
@@ -141,7 +168,16 @@ def index_guard(tu):
                     lower_tested_fields.add(key)
                 else:
                     upper_only_fields.add(key)
-            if not ok:
+            if not ok and spoiled is not None:
+                findings.append(dict(
+                    rule="INDEX-GUARD", function=name, file=site.f, line=site.l,
+                    construct="%s subscripted with cursor index %s after an object was released behind the bounds test"
+                              % (bt, it[:40]),
+                    detail="between the test that validated %s against %s->len and this use, %s releases "
+                           "an object (line %s): its finalizer / weak-reference callback is arbitrary code "
+                           "that can shrink or empty the bucket, and the use then reads freed or "
+                           "out-of-bounds memory" % (it[:40], bt, text(spoiled)[:40], spoiled.l), path=[]))
+            elif not ok:
                 findings.append(dict(
                     rule="INDEX-GUARD", function=name, file=site.f, line=site.l,
                     construct="%s subscripted with cursor index %s without bounds test" % (bt, it[:40]),
